@@ -21,6 +21,33 @@ def _nz() -> Normalizer:
     return Normalizer(int_exponents=True)
 
 
+def _nz_inlining(defs: Defs, keep: Set[str]) -> Normalizer:
+    """like _nz, but single-definition locals (weight = comb(i - 1, k - 1)) are read as what they stand for; names in `keep`
+    (loop indices, tables, parameters) stay atoms"""
+    stack: List[str] = []
+
+    def cb(name):
+        if name in keep or name in defs.params or name in stack:
+            return None
+        vals = defs.defs.get(name, [])
+        if len(vals) != 1 or not isinstance(vals[0], ast.expr):
+            return None
+        stack.append(name)
+        try:
+            return nz(vals[0])
+        finally:
+            stack.pop()
+    nz = Normalizer(name_cb=cb, int_exponents=True)
+    return nz
+
+
+def _equiv_in(defs: Defs, keep: Set[str], a, b) -> Optional[bool]:
+    try:
+        return _nz_inlining(defs, keep)(a).equiv(_nz_inlining(defs, keep)(b))
+    except AnalysisError:
+        return None
+
+
 def _parse(text: str):
     return ast.parse(text, mode="eval").body
 
@@ -254,7 +281,8 @@ def rule_conversions(repo: Repo) -> List[Ob]:
                 continue
             cum = tabs[0]
             term = u.value if isinstance(u.op, ast.Sub) else ast.UnaryOp(op=ast.USub(), operand=u.value)
-            good = _equiv(term, _parse(f"comb({i} - 1, {k} - 1) * {cum}[{k}] * {mom}[{i} - {k}]"))
+            fdefs = Defs(f.node, None)
+            good = _equiv_in(fdefs, {i, k, cum, mom}, term, _parse(f"comb({i} - 1, {k} - 1) * {cum}[{k}] * {mom}[{i} - {k}]"))
             # start value m_i and the range k = 1 .. i-1
             init = [n for n in ast.walk(outer) if isinstance(n, ast.Assign) and isinstance(n.targets[0], ast.Name) and n.targets[0].id == (u.target.id if isinstance(u.target, ast.Name) else "")]
             init_ok = bool(init) and _equiv(init[0].value, _parse(f"{mom}[{i}]"))
@@ -295,7 +323,7 @@ def rule_conversions(repo: Repo) -> List[Ob]:
                         mj = nm
             if mj is None:
                 continue
-            good = _equiv(u.value, _parse(f"comb({i}, {j}) * (-1) ** ({i} - {j}) * {mj} * {mom}[1] ** ({i} - {j})"))
+            good = _equiv_in(idefs, {i, j, mj, mom}, u.value, _parse(f"comb({i}, {j}) * (-1) ** ({i} - {j}) * {mj} * {mom}[1] ** ({i} - {j})"))
             ra = _range_args(inner.iter)
             rng_ok = ra is not None and ((len(ra) == 1 and _equiv(ra[0], _parse(f"{i} + 1"))) or (len(ra) == 2 and _equiv(ra[0], _parse("0")) and _equiv(ra[1], _parse(f"{i} + 1"))))
             done = True
